@@ -8,7 +8,7 @@ from ..program import AnalysisError, Program, norm, walk_local, ancestors
 from ..report import Check
 from ..types import Types
 from ..util import calls_in, fkey, is_method_call, node_calls, path_of, recv_of, stores_to_attr, where
-from .mgr import module_writers, comprehension_facts, MGR, CORE, const_resolver, self_call
+from .mgr import iterates_loggers, module_writers, comprehension_facts, MGR, CORE, const_resolver, self_call
 from .c01 import recipient_sends
 
 
@@ -148,13 +148,13 @@ def run(prog: Program, chk: Check):
     # ---- L loggers are waited for --------------------------------------------------------------------------------
     L = chk.rule("C14-L", "a not-ready logger is waited for with a blocking select; only non-loggers are dropped", 3,
                  "skipping a logger loses the message for the log; dropping must be confined to non-loggers")
-    lg_hosts = [f_ for f_ in mm.methods.values() if f_ is not fm and any(isinstance(n_, ast.For) and "logger_modules" in norm(n_.iter) for n_ in walk_local(f_.node))]
+    lg_hosts = [f_ for f_ in mm.methods.values() if f_ is not fm and any(isinstance(n_, ast.For) and iterates_loggers(f_.node, n_) for n_ in walk_local(f_.node))]
     if not lg_hosts:
         raise AnalysisError("anchor vanished: no loop over self.logger_modules in the manager (logger fan-out)")
     for f in [fm] + lg_hosts:
         gg, ss = recipient_sends(prog, ty, f)
         if f is not fm:  # only the fan-out itself: sends inside the loop over the loggers
-            ss = [(n_, c_, rv_) for n_, c_, rv_ in ss if any(isinstance(a_, ast.For) and "logger_modules" in norm(a_.iter) for a_ in ancestors(c_))]
+            ss = [(n_, c_, rv_) for n_, c_, rv_ in ss if any(isinstance(a_, ast.For) and iterates_loggers(f.node, a_) for a_ in ancestors(c_))]
         ggs = flow.guard_states(gg)
         lcm = guards.copy_map(f.node)  # `writable = module.conn in self.wlist; if writable:` counts as the readiness test
         for n, c, rv in ss:
